@@ -22,6 +22,7 @@ type c08Batch struct {
 	edge   bool
 	pts    func(marker float64) data.Points
 	name   string
+	churn  int // 1 = delete the grandchild GK (edge K1>GK), 2 = restore it
 }
 
 func c08Alphabet() []c08Batch {
@@ -31,7 +32,7 @@ func c08Alphabet() []c08Batch {
 			o, tg := origin, target
 			out = append(out, c08Batch{o, tg, false, func(m float64) data.Points {
 				return data.Points{{Type: "value", Value: m, Origin: o}}
-			}, fmt.Sprintf("value on %s by %q", tg, o)})
+			}, fmt.Sprintf("value on %s by %q", tg, o), 0})
 		}
 	}
 	// two-point batches and other fields, by a foreign author and by the client itself
@@ -39,14 +40,14 @@ func c08Alphabet() []c08Batch {
 		o := origin
 		out = append(out, c08Batch{o, "N1", false, func(m float64) data.Points {
 			return data.Points{{Type: "description", Text: fmt.Sprintf("d%v", m), Origin: o}, {Type: "arr", Key: "1", Value: m, Origin: o}}
-		}, fmt.Sprintf("description+arr[1] on N1 by %q", o)})
+		}, fmt.Sprintf("description+arr[1] on N1 by %q", o), 0})
 		out = append(out, c08Batch{o, "K1", false, func(m float64) data.Points {
 			return data.Points{{Type: "description", Text: fmt.Sprintf("k%v", m), Origin: o}, {Type: "value", Value: m, Origin: o}}
-		}, fmt.Sprintf("description+value on K1 by %q", o)})
+		}, fmt.Sprintf("description+value on K1 by %q", o), 0})
 	}
 	out = append(out, c08Batch{"other", "N1", true, func(m float64) data.Points {
 		return data.Points{{Type: "role", Text: fmt.Sprintf("r%v", m), Origin: "other"}}
-	}, `edge point role on N1 by "other"`})
+	}, `edge point role on N1 by "other"`, 0})
 	return out
 }
 
@@ -60,8 +61,27 @@ func (b c08Batch) mustNotTell() bool {
 	return b.origin == "N1" || (b.origin == "" && b.target == "N1")
 }
 
-func c08Body(t *testing.T, depth int, order bool) mc.Body {
+// churn: small alphabet around a grandchild that is deleted and restored (each of these restarts the
+// client, which is allowed here); writes made while it is deleted are not classified.
+func c08Body(t *testing.T, depth int, order bool, churn ...bool) mc.Body {
 	alpha := c08Alphabet()
+	isChurn := len(churn) > 0 && churn[0]
+	if isChurn {
+		var a2 []c08Batch
+		for _, b := range alpha {
+			if b.origin == "other" && !b.edge && len(b.pts(1)) == 1 && b.target != "S" {
+				a2 = append(a2, b)
+			}
+		}
+		tomb := func(v float64) func(float64) data.Points {
+			return func(float64) data.Points {
+				return data.Points{{Type: data.PointTypeTombstone, Value: v, Origin: "other"}}
+			}
+		}
+		a2 = append(a2, c08Batch{churn: 1, origin: "other", target: "GK", edge: true, pts: tomb(1), name: "delete GK (below K1)"},
+			c08Batch{churn: 2, origin: "other", target: "GK", edge: true, pts: tomb(0), name: "restore GK"})
+		alpha = a2
+	}
 	return func(x *mc.X) mc.Outcome {
 		var out mc.Outcome
 		bubble(t, func() {
@@ -126,15 +146,27 @@ func c08Body(t *testing.T, depth int, order bool) mc.Body {
 			nEvents := len(g.reg.events)
 			var hist []c08Batch
 			var markers []float64
-			classified := true
+			classified := !isChurn
+			gkLive := true
+			unclassified := map[int]bool{} // steps whose write hit the grandchild while it was deleted
 			for d := 0; d < depth; d++ {
 				b := alpha[x.Choose(len(alpha), "batch")]
+				if (b.churn == 1 && !gkLive) || (b.churn == 2 && gkLive) {
+					out = mc.Outcome{Trivial: true, Obs: "inapplicable"}
+					return
+				}
+				if b.churn == 0 && b.target == "GK" && !gkLive {
+					unclassified[d] = true
+				}
 				marker := float64(100 + d)
 				pts := b.pts(marker)
 				early := order && x.Deviate(2, "next batch before quiescence") == 1
 				err := g.s.do(func() error {
 					for i := range pts {
 						pts[i].Time = g.tick()
+					}
+					if b.churn != 0 {
+						return client.SendEdgePoints(g.inst.Nc, "GK", "K1", pts, true)
 					}
 					if b.edge {
 						return client.SendEdgePoints(g.inst.Nc, b.target, root, pts, true)
@@ -149,6 +181,9 @@ func c08Body(t *testing.T, depth int, order bool) mc.Body {
 					g.s.quiesce()
 				}
 				x.Logf("%s (marker %v)", b.name, marker)
+				if b.churn != 0 {
+					gkLive = b.churn == 2
+				}
 				hist = append(hist, b)
 				markers = append(markers, marker)
 				if !b.mustTell() && !b.mustNotTell() && b.target != "S" {
@@ -211,13 +246,16 @@ func c08Body(t *testing.T, depth int, order bool) mc.Body {
 					restarted = true
 				}
 			}
-			if restarted {
+			if restarted && !isChurn {
 				out = mc.Outcome{Violation: "client was restarted by plain point updates: " + strings.Join(x.History(), "; "), Key: "unexpected-restart"}
 				return
 			}
 			var mustOrder []float64
 			for i, b := range hist {
 				m := markers[i]
+				if b.churn != 0 || unclassified[i] {
+					continue
+				}
 				if b.mustTell() {
 					mustOrder = append(mustOrder, m)
 					if told[m] != 1 {
@@ -304,6 +342,13 @@ func TestC08(t *testing.T) {
 		r.Explore(mc.Config{Name: "delivery-order-d2", Serial: true, SplitDepth: 1, DevBound: 1,
 			Rule: "the same alphabet, sequences of 2 batches, with one scheduling deviation (another pending delivery first, or the second batch written before the system is quiescent)"},
 			c08Body(t, 2, true))
+		cd := 4
+		if thorough() {
+			cd = 5
+		}
+		r.Explore(mc.Config{Name: fmt.Sprintf("grandchild-churn-d%d", cd), Serial: true, SplitDepth: 2,
+			Rule: fmt.Sprintf("all sequences of %d operations over {foreign value on the client node, on the child, on the grand-child; delete the grand-child; restore it}, each followed by a run to quiescence (deleting / restoring a descendant restarts the client, which is allowed here): every foreign write made while its target is live is told exactly once and in order — also after the target was deleted, written to and restored", cd)},
+			c08Body(t, cd, false, true))
 		r.Assume("batches with an empty origin aimed at a descendant are not classified by the statement and only checked for content; batches for the unrelated sibling must simply not disturb the rest")
 	})
 }
@@ -311,5 +356,7 @@ func TestC08(t *testing.T) {
 func init() {
 	bodies["C08/batch-sequences-d2"] = func(t *testing.T) mc.Body { return c08Body(t, 2, false) }
 	bodies["C08/batch-sequences-d3"] = func(t *testing.T) mc.Body { return c08Body(t, 3, false) }
+	bodies["C08/grandchild-churn-d4"] = func(t *testing.T) mc.Body { return c08Body(t, 4, false, true) }
+	bodies["C08/grandchild-churn-d5"] = func(t *testing.T) mc.Body { return c08Body(t, 5, false, true) }
 	bodies["C08/delivery-order-d2"] = func(t *testing.T) mc.Body { return c08Body(t, 2, true) }
 }
